@@ -20,6 +20,30 @@ CLAIMED = {
         note="log/exp uninterpreted with the axiom instances listed in the evidence; reductions via linearity/congruence of "
              "finite sums; normalisation of the named densities (integrate to one) is a textbook fact, assumed; floats as reals",
         ref="3/C05"),
+    "C01": dict(
+        text="Proof of the property's concrete clause for every sampler step: on every accept and every retry edge of the real "
+             "take_step / __advance_walker code, the value compared against is beta*F(current point), the candidate value is "
+             "beta*F of the very point proposed, the proposal has the stated symmetric form (one folded coordinate move, folded "
+             "step along a direction, leapfrog end point from the current state, Goodman-Weare stretch about another walker) and "
+             "the decision is exactly the Metropolis-Hastings rule, for all dimensions, chain lengths, temperatures and bounds. "
+             "The step from per-decision correctness to the limit law is a meta-theorem and is assumed.",
+        note="F (user log-density) uninterpreted; random draws are fresh symbols; exp/log uninterpreted; detailed balance => "
+             "invariance and the jump-chain effect of re-drawing until acceptance are outside per-call contracts (DESIGN 6); "
+             "modular contracts: Parameter tuning methods, update_directions, run_leapfrog (C07), mass (C07)",
+        ref="3/C01"),
+    "C03": dict(
+        text="Proof: each sampler step preserves the class invariant 'k-th stored log-probability = beta*F(k-th stored sample)': the "
+             "appended value is beta*F of the appended point, history is unchanged, an ensemble update rewrites exactly one walker "
+             "consistently; for all dimensions, lengths, temperatures, bounds.",
+        note="class invariant assumed on entry (constructor contracts pending); F uninterpreted; frames of modular callees assumed",
+        ref="3/C03"),
+    "C15": dict(
+        text="Proof: advance(m) takes exactly m steps for every m >= 0 (loop invariants over the 100-group split and the remainder), "
+             "each sampler's take_step adds exactly one entry to every store, run_for takes at least one whole step per pass, "
+             "never divides by zero and exits only when the clock passes the budget (arbitrary non-decreasing clock, arbitrary "
+             "step cost). Bounded: real samplers advanced by m in {0,1,7,99,100,101,150} and a scripted slow clock.",
+        note="take_step is modular inside advance/run_for (its +1 contract is proved per sampler); ChainPool equality is bounded only",
+        ref="3/C15"),
     "C13": dict(
         text="Proof: for every sample length, column count and fraction, the interval returned by the real sample_hdi code has "
              "two sorted sample values L=floor(f*n) positions apart as end points (so it holds L+1 > f*n points), no window of "
